@@ -18,6 +18,7 @@ import (
 	"encoding/json"
 	"fmt"
 	"math"
+	"reflect"
 )
 
 type Kind uint8
@@ -27,11 +28,12 @@ const (
 	KS
 	KC
 	KA
-	KSX  // operand element at a computed position (templates for large tensors, spec/Big.tla)
-	KBS  // sum / max / min of Body over Var = Lo..Hi
-	KLet // shared sub-value
-	KRV  // reference to a shared sub-value
-	KIf  // Args[0] if IxA < IxB else Args[1] (which operand of a Concat / Patch a position reads)
+	KSX   // operand element at a computed position (templates for large tensors, spec/Big.tla)
+	KBS   // sum / max / min of Body over Var = Lo..Hi
+	KLet  // shared sub-value
+	KRV   // reference to a shared sub-value
+	KIf   // Args[0] if IxA < IxB else Args[1] (which operand of a Concat / Patch a position reads)
+	KMemo // Body, whose value depends on the position only through the index expressions Keys (a fibre's normaliser)
 )
 
 // Ix is an integer index expression of a template.
@@ -112,8 +114,11 @@ type T struct {
 	Name     string  // KS: tensor name, KC: constant name, KA: function
 	I        int     // KS: 1-based element
 	Args     []*T
-	Ix       *Ix    // KSX
-	IxA, IxB *Ix    // KIf
+	Ix       *Ix   // KSX
+	IxA, IxB *Ix   // KIf
+	Keys     []*Ix // KMemo
+	memoEnv  uintptr
+	memo     map[string]Res
 	Var      string // KBS, KLet, KRV
 	Lo, Hi   int    // KBS
 	Body     *T     // KBS, KLet
@@ -194,6 +199,13 @@ func (t *T) UnmarshalJSON(b []byte) error {
 	case "rv":
 		t.K = KRV
 		return json.Unmarshal(raw[1], &t.Var)
+	case "memo":
+		t.K = KMemo
+		if err := json.Unmarshal(raw[1], &t.Keys); err != nil {
+			return err
+		}
+		t.Body = new(T)
+		return json.Unmarshal(raw[2], t.Body)
 	case "if":
 		t.K = KIf
 		if len(raw) != 5 {
@@ -241,6 +253,8 @@ func (t *T) MarshalJSON() ([]byte, error) {
 		return json.Marshal([]any{"let", t.Var, t.Val, t.Body})
 	case KRV:
 		return json.Marshal([]any{"rv", t.Var})
+	case KMemo:
+		return json.Marshal([]any{"memo", t.Keys, t.Body})
 	case KIf:
 		return json.Marshal([]any{"if", t.IxA, t.IxB, t.Args[0], t.Args[1]})
 	}
@@ -279,6 +293,21 @@ func (t *T) EvalAt(env Env, mode int, b *Bind) Res {
 		return Res{V: env[t.Name][t.Ix.eval(b)]}
 	case KRV:
 		return b.R[t.Var]
+	case KMemo:
+		id := reflect.ValueOf(env).Pointer()
+		if t.memoEnv != id || t.memo == nil {
+			t.memoEnv, t.memo = id, map[string]Res{}
+		}
+		key := fmt.Sprint(mode)
+		for _, k := range t.Keys {
+			key += fmt.Sprint(",", k.eval(b))
+		}
+		if r, ok := t.memo[key]; ok {
+			return r
+		}
+		r := t.Body.EvalAt(env, mode, b)
+		t.memo[key] = r
+		return r
 	case KIf:
 		if t.IxA.eval(b) < t.IxB.eval(b) {
 			return t.Args[0].EvalAt(env, mode, b)
